@@ -141,7 +141,10 @@ def gradMethodsLower : List String :=
   ["cg", "bfgs", "newton-cg", "l-bfgs-b", "tnc", "slsqp", "dogleg", "trust-ncg", "trust-krylov",
    "trust-exact", "trust-constr"]
 
-def usesGrad (method : String) : Bool := gradMethodsLower.contains method.toLower
+def usesGradLower (m : String) : Bool := gradMethodsLower.contains m
+
+/-- `method.lower() in …`; `lower` is Python's `str.lower` (`String.toLower` in the driver) -/
+def usesGrad (lower : String → String) (method : String) : Bool := usesGradLower (lower method)
 
 /-- all solvers of `scipy.optimize.minimize` (lower case) and the ones that take no gradient -/
 def scipyMethods : List String :=
